@@ -52,7 +52,7 @@ Section Term.
 
   Lemma tw_dtor : forall scrut x targs args ty, TW scrut -> Forall TC args -> TW (FDtor scrut x targs args ty).
   Proof.
-    intros scrut x targs args ty Hsc Ha G S cont t st s st' H Hg Hty Htd Hrk Hfv Hbd HS HU HK Hf. rewrite wc_unfold in H.
+    intros scrut x targs args ty Hsc Ha G S cont t st s st' H Hg Hty Htd Hfv Hbd HS HU HK Hf. rewrite wc_unfold in H.
     apply wc_dtor_inv in H. destruct H as [args' [st1 [sty0 [Es [Esty Ew]]]]].
     rewrite tg_dtor in Hg. apply andb_prop in Hg. destruct Hg as [Hgs Hg].
     assert (Etyo : tyo scrut = Some (compile_ty sty0)) by (unfold tyo; rewrite Esty; reflexivity).
@@ -61,7 +61,6 @@ Section Term.
     destruct (split_last (cxargs sg)) as [[pre last]|] eqn:Esl; [|discriminate]. apply split_last_spec in Esl.
     apply andb_prop in Hg. destruct Hg as [Hg Hhas]. apply andb_prop in Hg. destruct Hg as [Hga Hchi]. apply ceq_chi in Hchi.
     apply has_ty_tyo in Hhas. rewrite Hty in Hhas. injection Hhas as ->.
-    rewrite risk_dtor in Hrk. apply orb_false_elim in Hrk. destruct Hrk as [Hra Hrs].
     rewrite fv_dtor in Hfv. simpl in Hbd.
     assert (Ga : grows st st1) by (eapply args_grows; exact Es).
     assert (Gs : grows st1 st') by (eapply wc_grows; exact Ew).
@@ -92,16 +91,22 @@ Section Term.
     destruct (W2 Hcx) as [W3 W4]. split; [exact W3 | eapply lifted_ok_trans; eassumption].
   Qed.
 
-  Lemma tw_case : forall scrut targs cls ty, TW scrut -> Forall (fun c => TW (clause_body c)) cls -> TW (FCase scrut targs cls ty).
+  Lemma tw_case_in : forall scrut targs cls ty, TW scrut -> Forall (fun c => TW (clause_body c)) cls ->
+    TWin p defs U (FCase scrut targs cls ty) (flat_map cl_names cls)
+      (wc_case cur (wc' scrut) (fterm_type scrut) (List.length cls) (fun cont' => clauses_with (fun b => wc' b) cont' cls)).
   Proof.
-    intros scrut targs cls ty Hsc Hcl G S cont t st s st' H Hg Hty Htd Hrk Hfv Hbd HS HU HK Hf. rewrite wc_unfold in H.
+    intros scrut targs cls ty Hsc Hcl G S cont t st s st' H Hcap Hg Hty Htd Hfv Hbd HS HU HK Hf.
     apply wc_case_inv in H. destruct H as [cont1 [st0 [cls' [st1 [sty0 [Hsh [Ec [Esty Ew]]]]]]]].
     rewrite tg_case in Hg. apply andb_prop in Hg. destruct Hg as [Hgs Hg].
     assert (Etyo : tyo scrut = Some (compile_ty sty0)) by (unfold tyo; rewrite Esty; reflexivity).
     rewrite Etyo in Hg. destruct (compile_ty sty0) as [|n] eqn:En; [discriminate|].
     destruct (find_decl D n) as [d|] eqn:Ed; [|discriminate].
     unfold tyo in Hty. simpl in Hty. apply tyo_ann in Hty. destruct Hty as [ty0 [-> ->]].
-    rewrite risk_case in Hrk. apply orb_false_elim in Hrk. destruct Hrk as [Hrc Hrs].
+    assert (Hrc : captures (flat_map cl_names cls) cont1 = false).
+    { destruct (Nat.leb (List.length cls) 1 || cont_is_small cont).
+      - destruct Hsh as [-> _]. exact Hcap.
+      - eapply captures_sub; [|exact Hcap].
+        apply (proj2 (Fun2CoreUB.share_fvt cur cont st cont1 st0 Hsh (ct_cont_cns D C defs G _ cont (KT_here D C defs U _ _ _ _ _ HK)))). }
     rewrite fv_case in Hfv. simpl in Hbd. fold (flat_map cl_bnd cls) in Hbd.
     assert (G1 : grows st0 st1) by (eapply clauses_grows; exact Ec).
     assert (Gs : grows st1 st') by (eapply wc_grows; exact Ew).
@@ -135,37 +140,42 @@ Section Term.
     destruct (W2 Hcx) as [W3 W4]. split; [exact W3|].
     eapply lifted_ok_trans; [exact L0|]. eapply lifted_ok_trans; eassumption.
   Qed.
+  Lemma tw_case : forall scrut targs cls ty, TW scrut -> Forall (fun c => TW (clause_body c)) cls -> TW (FCase scrut targs cls ty).
+  Proof.
+    intros scrut targs cls ty Hsc Hcl.
+    eapply (tw_guard p defs cur U); [| |apply tw_case_in; assumption].
+    - intros cont. rewrite wc_unfold. reflexivity.
+    - reflexivity.
+  Qed.
 
   Lemma new_ok : forall cls ty, Forall (fun c => TW (clause_body c)) cls -> forall G t st cls' st',
     coclauses_with (fun b => wc' b) cls st = Ok (cls', st') ->
     tg G (FNew cls ty) = true -> tyo (FNew cls ty) = Some t ->
-    shadowing_risk cd (FNew cls ty) [] = false ->
     incl (fv_fterm (FNew cls ty)) (st_used_vars st) -> incl (bnd (FNew cls ty)) U -> incl U (st_used_vars st) ->
     Hfind (st_lifted st') ->
     ct G CPrd t (CXCase CPrd cls' t) = None /\ tyd t = true /\ tyd_fv (fvc cls') /\ lifted_ok st st'.
   Proof.
-    intros cls ty Hcl G t st cls' st' Ec Hg Hty Hrk Hfv Hbd HU Hf.
+    intros cls ty Hcl G t st cls' st' Ec Hg Hty Hfv Hbd HU Hf.
     rewrite tg_new, Hty in Hg. destruct t as [|n]; [discriminate|].
     destruct (find_decl C n) as [d|] eqn:Ed; [|discriminate].
-    rewrite risk_new in Hrk. rewrite fv_new in Hfv. simpl in Hbd. fold (flat_map cl_bnd cls) in Hbd.
-    destruct (tw_coclauses p defs cur U cls Hcl G n (ctxtors d) st cls' st' Ec Hg Hrk) as [M1 [M2 [M3 M4]]]; auto.
+    rewrite fv_new in Hfv. simpl in Hbd. fold (flat_map cl_bnd cls) in Hbd.
+    destruct (tw_coclauses p defs cur U cls Hcl G n (ctxtors d) st cls' st' Ec Hg) as [M1 [M2 [M3 M4]]]; auto.
     split; [|split; [eapply find_codata_tyd; exact Ed | split; assumption]].
     apply ct_xcase. repeat split. exists n, d. repeat split; assumption.
   Qed.
   Lemma tc_new : forall cls ty, Forall (fun c => TW (clause_body c)) cls -> TC (FNew cls ty).
   Proof.
-    intros cls ty Hcl G t st c st' H Hg Hty Htd Hrk Hfv Hbd HU Hf. rewrite cmp_unfold in H.
+    intros cls ty Hcl G t st c st' H Hg Hty Htd Hfv Hbd HU Hf. rewrite cmp_unfold in H.
     apply cmp_new_inv in H. destruct H as [cls' [ty0 [Ec [-> ->]]]].
     pose proof Hty as Hty'. unfold tyo in Hty'. simpl in Hty'. injection Hty' as <-.
-    destruct (new_ok cls (Some ty0) Hcl G _ st cls' st' Ec Hg Hty Hrk) as [C1 [_ [C3 C4]]]; auto.
+    destruct (new_ok cls (Some ty0) Hcl G _ st cls' st' Ec Hg Hty) as [C1 [_ [C3 C4]]]; auto.
   Qed.
   Lemma tw_new : forall cls ty, Forall (fun c => TW (clause_body c)) cls -> TW (FNew cls ty).
   Proof.
-    intros cls ty Hcl G S cont t st s st' H Hg Hty Htd Hrk Hfv Hbd HS HU HK Hf. rewrite wc_unfold in H.
+    intros cls ty Hcl G S cont t st s st' H Hg Hty Htd Hfv Hbd HS HU HK Hf. rewrite wc_unfold in H.
     apply wc_new_inv in H. destruct H as [cls' [ty0 [Ec [-> ->]]]].
     pose proof Hty as Hty'. unfold tyo in Hty'. simpl in Hty'. injection Hty' as <-.
-    rewrite risk_new in Hrk. rewrite <- (risk_new cd cls (Some ty0) []) in Hrk.
-    destruct (new_ok cls (Some ty0) Hcl G _ st cls' st' Ec Hg Hty Hrk) as [C1 [_ [C3 C4]]]; auto.
+    destruct (new_ok cls (Some ty0) Hcl G _ st cls' st' Ec Hg Hty) as [C1 [_ [C3 C4]]]; auto.
     split.
     - apply cs_cut. split; [exact Htd|]. split; [exact C1 | eapply KT_here; exact HK].
     - intros Hc. split; [|exact C4]. intros bb Hbb. apply fvs_cut in Hbb. destruct Hbb as [Hbb|Hbb]; [|apply Hc; exact Hbb].
@@ -175,18 +185,17 @@ Section Term.
   Lemma label_ok : forall l t' ty, TW t' -> forall G t st s0 st',
     wc' t' (CXVar CCns (new_id l) t) st = Ok (s0, st') ->
     tg G (FLabel l t' ty) = true -> tyo (FLabel l t' ty) = Some t ->
-    shadowing_risk cd (FLabel l t' ty) [] = false ->
     incl (fv_fterm (FLabel l t' ty)) (st_used_vars st) -> incl (bnd (FLabel l t' ty)) U -> incl U (st_used_vars st) ->
     Hfind (st_lifted st') ->
     ct G CPrd t (CMu CPrd (new_id l) s0 t) = None /\ tyd t = true /\ tyd_fv (fvs s0) /\ lifted_ok st st'.
   Proof.
-    intros l t' ty Ht G t st s0 st' Ew Hg Hty Hrk Hfv Hbd HU Hf.
+    intros l t' ty Ht G t st s0 st' Ew Hg Hty Hfv Hbd HU Hf.
     rewrite tg_label in Hg. unfold tyo in Hty. simpl in Hty. apply tyo_ann in Hty. destruct Hty as [ty0 [-> ->]].
     apply andb_prop in Hg. destruct Hg as [Hg Hh]. apply andb_prop in Hg. destruct Hg as [Htd Hgt]. apply has_ty_tyo in Hh.
-    simpl in Hrk, Hfv, Hbd.
+    simpl in Hfv, Hbd.
     assert (HlU : In l U) by (apply Hbd; left; reflexivity).
     set (lb := mkcb (new_id l) CCns (compile_ty ty0)).
-    destruct (Ht (lb :: G) [l] (CXVar CCns (new_id l) (compile_ty ty0)) (compile_ty ty0) st s0 st' Ew Hgt Hh Htd Hrk) as [W1 W2]; auto.
+    destruct (Ht (lb :: G) [l] (CXVar CCns (new_id l) (compile_ty ty0)) (compile_ty ty0) st s0 st' Ew Hgt Hh Htd) as [W1 W2]; auto.
     { intros z Hz. destruct (string_dec z l) as [->|Hne]; [apply HU; exact HlU|].
       apply Hfv. apply remove_all_In. split; [exact Hz|]. intros [E|[]]. congruence. }
     { exact (incl_cons_r _ _ _ _ Hbd). }
@@ -198,19 +207,18 @@ Section Term.
   Qed.
   Lemma tc_label : forall l t' ty, TW t' -> TC (FLabel l t' ty).
   Proof.
-    intros l t' ty Ht G t st c st' H Hg Hty Htd Hrk Hfv Hbd HU Hf. rewrite cmp_unfold in H.
+    intros l t' ty Ht G t st c st' H Hg Hty Htd Hfv Hbd HU Hf. rewrite cmp_unfold in H.
     apply cmp_label_inv in H. destruct H as [ty0 [s0 [-> [Ew ->]]]].
     pose proof Hty as Hty'. unfold tyo in Hty'. simpl in Hty'. injection Hty' as <-.
-    destruct (label_ok l t' (Some ty0) Ht G _ st s0 st' Ew Hg Hty Hrk) as [C1 [_ [C3 C4]]]; auto.
+    destruct (label_ok l t' (Some ty0) Ht G _ st s0 st' Ew Hg Hty) as [C1 [_ [C3 C4]]]; auto.
     split; [exact C1|]. split; [|exact C4]. intros bb Hbb. apply fvt_mu_1 in Hbb. apply C3. exact Hbb.
   Qed.
   Lemma tw_label : forall l t' ty, TW t' -> TW (FLabel l t' ty).
   Proof.
-    intros l t' ty Ht G S cont t st s st' H Hg Hty Htd Hrk Hfv Hbd HS HU HK Hf. rewrite wc_unfold in H.
+    intros l t' ty Ht G S cont t st s st' H Hg Hty Htd Hfv Hbd HS HU HK Hf. rewrite wc_unfold in H.
     apply wc_label_inv in H. destruct H as [ty0 [s0 [-> [Ew ->]]]].
     pose proof Hty as Hty'. unfold tyo in Hty'. simpl in Hty'. injection Hty' as <-.
-    assert (Hrk' : shadowing_risk cd (FLabel l t' (Some ty0)) [] = false) by exact Hrk.
-    destruct (label_ok l t' (Some ty0) Ht G _ st s0 st' Ew Hg Hty Hrk') as [C1 [_ [C3 C4]]]; auto.
+    destruct (label_ok l t' (Some ty0) Ht G _ st s0 st' Ew Hg Hty) as [C1 [_ [C3 C4]]]; auto.
     split.
     - apply cs_cut. split; [exact Htd|]. split; [exact C1 | eapply KT_here; exact HK].
     - intros Hc. split; [|exact C4]. intros bb Hbb. apply fvs_cut in Hbb. destruct Hbb as [Hbb|Hbb]; [|apply Hc; exact Hbb].
@@ -219,13 +227,13 @@ Section Term.
 
   Lemma tw_goto : forall l t' ty, TW t' -> TW (FGoto l t' ty).
   Proof.
-    intros l t' ty Ht G S cont t st s st' H Hg Hty Htd Hrk Hfv Hbd HS HU HK Hf. rewrite wc_unfold in H.
+    intros l t' ty Ht G S cont t st s st' H Hg Hty Htd Hfv Hbd HS HU HK Hf. rewrite wc_unfold in H.
     apply wc_goto_inv in H. destruct H as [ty0 [Et Ew]].
     rewrite tg_goto in Hg. apply andb_prop in Hg. destruct Hg as [Hg Hgt]. apply andb_prop in Hg. destruct Hg as [Hv Han].
     rewrite Et in Hv, Han. simpl in Han. apply var_ok_look in Hv. destruct Hv as [ty1 [E Hv]]. injection E as <-.
-    simpl in Hrk, Hfv, Hbd.
+    simpl in Hfv, Hbd.
     assert (Etyo : tyo t' = Some (compile_ty ty0)) by (unfold tyo; rewrite Et; reflexivity).
-    destruct (Ht G [l] (CXVar CCns (new_id l) (compile_ty ty0)) (compile_ty ty0) st s st' Ew Hgt Etyo Han Hrk) as [W1 W2]; auto.
+    destruct (Ht G [l] (CXVar CCns (new_id l) (compile_ty ty0)) (compile_ty ty0) st s st' Ew Hgt Etyo Han) as [W1 W2]; auto.
     { exact (incl_cons_r _ _ _ _ Hfv). }
     { intros z [<-|[]]. apply Hfv. left. reflexivity. }
     { intros G' Hag. apply ct_var. repeat split. rewrite (Hag l (or_introl (or_introl eq_refl))). exact Hv. }
@@ -234,11 +242,11 @@ Section Term.
 
   Lemma tw_exit : forall a ty, TC a -> TW (FExit a ty).
   Proof.
-    intros a ty Ha G S cont t st s st' H Hg Hty Htd Hrk Hfv Hbd HS HU HK Hf. rewrite wc_unfold in H.
+    intros a ty Ha G S cont t st s st' H Hg Hty Htd Hfv Hbd HS HU HK Hf. rewrite wc_unfold in H.
     apply wc_exit_inv in H. destruct H as [a' [ty0 [Ea [-> ->]]]].
     rewrite tg_exit in Hg. apply andb_prop in Hg. destruct Hg as [Hg Han]. apply andb_prop in Hg. destruct Hg as [Hga Hh].
-    apply has_ty_tyo in Hh. simpl in Han, Hrk, Hfv, Hbd.
-    destruct (Ha G CI64 st a' st' Ea Hga Hh eq_refl Hrk) as [A1 [A2 A3]]; auto.
+    apply has_ty_tyo in Hh. simpl in Han, Hfv, Hbd.
+    destruct (Ha G CI64 st a' st' Ea Hga Hh eq_refl) as [A1 [A2 A3]]; auto.
     split.
     - apply cs_exit. split; assumption.
     - intros _. split; [|exact A3]. intros bb Hbb. apply fvs_exit in Hbb. apply A2. exact Hbb.
